@@ -164,4 +164,32 @@ Definition Spec (i : input) (o : obs) : Prop :=
   /\ forall t sc fl, nth_error (threads i) t = Some (sc, fl) -> wf_script Out sc = true ->
        proj t (o_log o) = expected fl sc sst0 0.
 
+(* ---------- the shape of a block (used by C12_blocks for arbitrary, also malformed, scripts) ---------- *)
+Definition okc (c : tcall) : gev := ECall c false.
+Definition prefix_calls (a : tv) (n : nat) (b : tv) (gs : list tags2) : list tcall :=
+  [TTime a; TStartTest n; TTime b] ++ map TTags gs.
+Inductive block_shape : list gev -> Prop :=
+| bs_guard g b : block_shape [ECall (TGuard g) b]
+    (* a guarded startTestRun/stopTestRun/stop/done/shouldStop *)
+| bs_full a n b gs kd ro rs : length gs <= 2 ->
+    block_shape (map okc (prefix_calls a n b gs) ++ [ECall (TOutcome kd n) ro; ECall (TStopTest n) rs])
+    (* start time, startTest, end time, tags, the outcome, stopTest - stopTest also when the outcome raised *)
+| bs_cut a n b gs j c : length gs <= 2 -> nth_error (prefix_calls a n b gs) j = Some c ->
+    block_shape (map okc (firstn j (prefix_calls a n b gs)) ++ [ECall c true]).
+    (* cut short at a call of the replayed prefix that raised: nothing follows *)
+
+(* every outcome exactly once and in order *)
+Fixpoint outcomes_of_log (l : list gev) : list (kind * nat) :=
+  match l with
+  | [] => []
+  | ECall (TOutcome k n) _ :: r => (k, n) :: outcomes_of_log r
+  | _ :: r => outcomes_of_log r
+  end.
+Fixpoint outcomes_of_script (s : list rcall) : list (kind * nat) :=
+  match s with
+  | [] => []
+  | ROutcome k n :: r => (k, n) :: outcomes_of_script r
+  | _ :: r => outcomes_of_script r
+  end.
+
 Definition findings (i : input) : list nat := [].
